@@ -77,21 +77,42 @@ fn run_case(line: &str) -> String {
     let r = util::catch(|| {
         let model = m.load().map_err(|e| format!("read:{e}"))?;
         let p = Predictor::new(model, want_tags).map_err(|_| "err:invalid_model".to_string())?;
-        let mut s = Sentence::from_raw(text.clone()).map_err(|_| "err:invalid_argument".to_string())?;
-        p.predict(&mut s);
-        let mut out = format!(
-            "S{};B{}",
-            s.boundary_scores().iter().map(|x| x.to_string()).collect::<Vec<_>>().join("."),
-            if s.boundaries().is_empty() { "-".to_string() } else { s.boundaries().iter().map(|&b| label_char(b)).collect() }
-        );
-        #[cfg(feature = "tag-prediction")]
-        if want_tags {
-            s.fill_tags();
-            out.push_str(&format!(
-                ";K{};G{}",
-                s.n_tags(),
-                s.tags().iter().map(|t| t.as_ref().map_or("~".to_string(), |t| util::hexs(t))).collect::<Vec<_>>().join(".")
-            ));
+        let observe = |p: &Predictor| -> Result<String, String> {
+            let mut s = Sentence::from_raw(text.clone()).map_err(|_| "err:invalid_argument".to_string())?;
+            p.predict(&mut s);
+            let mut out = format!(
+                "S{};B{}",
+                s.boundary_scores().iter().map(|x| x.to_string()).collect::<Vec<_>>().join("."),
+                if s.boundaries().is_empty() { "-".to_string() } else { s.boundaries().iter().map(|&b| label_char(b)).collect() }
+            );
+            #[cfg(feature = "tag-prediction")]
+            if want_tags {
+                s.fill_tags();
+                out.push_str(&format!(
+                    ";K{};G{}",
+                    s.n_tags(),
+                    s.tags().iter().map(|t| t.as_ref().map_or("~".to_string(), |t| util::hexs(t))).collect::<Vec<_>>().join(".")
+                ));
+            }
+            Ok(out)
+        };
+        let mut out = observe(&p)?;
+        // C14 under this feature set: the predictor that comes back from its own serialisation must give the same answer
+        let data = p.serialize_to_vec().map_err(|_| "err:serialize".to_string())?;
+        let rt = util::catch(std::panic::AssertUnwindSafe(|| {
+            let (p2, rest) = unsafe { Predictor::deserialize_from_slice_unchecked(&data) }.map_err(|_| "err:deserialize".to_string())?;
+            if !rest.is_empty() {
+                return Err("err:rest".to_string());
+            }
+            observe(&p2)
+        }));
+        let out2 = match rt {
+            Ok(Ok(o)) => o,
+            Ok(Err(e)) => e,
+            Err(_) => "panic".to_string(),
+        };
+        if out2 != out {
+            out.push_str(&format!(";AFTER-SERIALISE-DESERIALISE:{out2}"));
         }
         Ok::<String, String>(out)
     });
